@@ -405,6 +405,41 @@ def variant_job(chk, job, ctx):
             witness = bad[1]
             why = 'children visited %r, children present (declaration order) %r' % (list(got_seq), list(bad[0]))
         report(chk, g, ty, label, inner, r, witness, why, all_kinds, tvars)
+    # DESIGN 4.4: a step the engine could not decide is still held against the reference traversal on the compiled code: instances of up to
+    # three of its paths (plain and with rich children), all kinds searched, and the kinds of the node and of its first child alone
+    undecided_paths = [r for r in res if r.outcome == 'unsupported']
+    if undecided_paths and ty != 'SourceUnit' and _CONFIRMED.get('walker:' + label, 0) < 1:
+        picks = [undecided_paths[0], undecided_paths[len(undecided_paths) // 2], undecided_paths[-1]]
+        done = False
+        for r in picks:
+            for rich in (False, True):
+                g.rich = rich
+                try:
+                    conc = instantiate(inner, r.choices, {}, g, None, types)
+                    su = wrap_in_file(g, ty, conc)
+                    outs = [native_walk_compare(chk, su, all_kinds)]
+                    if outs[0][0] == 'same':
+                        firsts = [k for k, _ in ptgen.ref_walk(su, lambda k: True)]
+                        own = [k for k in dict.fromkeys(firsts) if k in all_kinds]
+                        for a, b_ in zip(firsts, firsts[1:]):
+                            if a in all_kinds and b_ in all_kinds and a != b_:
+                                outs.append(native_walk_compare(chk, su, [a, b_]))
+                                if outs[-1][0] == 'diff' or len(outs) > 6:
+                                    break
+                except Unsupported:
+                    outs = []
+                finally:
+                    g.rich = False
+                for o in outs:
+                    if o[0] != 'unprintable':
+                        chk.validated += 1
+                    if o[0] == 'diff' and not done:
+                        done = True
+                        _CONFIRMED['walker:' + label] = _CONFIRMED.get('walker:' + label, 0) + 1
+                        chk.violation('walker:' + label, '%s (step not decided symbolically; compiled walker against the reference traversal). File:%s  expected (pre-order) %r, walker returned %r' % (
+                            label, o[1].replace('\n', ' '), o[2], o[3]), {'job': 'extract', 'source': o[1], 'targets': all_kinds, 'expected': o[2], 'observed': o[3]})
+            if done:
+                break
     # translator validation: one concrete instance per variant through the real parser + real walker
     if ty != 'SourceUnit' and res and res[0].outcome == 'return':
         r = res[(chk.seed + len(label)) % len(res)]
